@@ -17,6 +17,7 @@ import (
 	"strconv"
 	"strings"
 	"sync"
+	"syscall"
 	"testing"
 	"time"
 
@@ -291,6 +292,9 @@ func kernelConformance(run *report.Run, dir string) {
 						}
 						kv, kout, err := k.Run(pr.Name, f[:l])
 						if err != nil {
+							if errors.Is(err, syscall.EINVAL) {
+								continue // the kernel's test-run facility refuses some malformed frames (e.g. truncated IP header): covered natively only
+							}
 							run.HarnessError(fmt.Sprintf("%s/%s: BPF_PROG_TEST_RUN len=%d: %v", p, pr.Name, l, err))
 							break states
 						}
